@@ -5,7 +5,7 @@
 ID=$1; shift
 P=${ID%%-*}
 [ $# -gt 0 ] || set -- $P
-WT=/tmp/seedwt-$ID
+WT=/tmp/seedwt   # one fixed path: unchanged packages then hit the go build cache across seeds
 git -C /repo worktree remove --force $WT 2>/dev/null
 git -C /repo worktree add -q --detach $WT HEAD || exit 9
 if ! git -C $WT apply /verif/seeded/$ID/patch.diff 2>/dev/null; then
